@@ -123,3 +123,107 @@ fn f_null_paths() {
         && MaybenotResult::NullPointer as u32 == 4, "C20: error codes");
     kani::cover!(true, "reached end");
 }
+
+// ------------------------------------------------------------------------------------------
+// maybenot_on_events through the real on_events / trigger_events: the machine step writes ANY
+// well-formed action (maybenot::verif::transition_any_action); the output buffer has exactly
+// num_machines slots between two canaries.
+// ------------------------------------------------------------------------------------------
+use maybenot::verif::{aa_calls, aa_duration, aa_last, aa_timeout, set_mode, MODE_ANY_ACTION};
+
+fn fake_now() -> Instant {
+    #[repr(C)]
+    struct TS {
+        secs: i64,
+        nanos: u32,
+    }
+    let secs: i64 = kani::any();
+    let nanos: u32 = kani::any();
+    kani::assume(nanos < 1_000_000_000 && secs >= 0 && secs < (1i64 << 40));
+    unsafe { core::mem::transmute::<TS, Instant>(TS { secs, nanos }) }
+}
+fn noop_machine() -> Machine {
+    Machine { allowed_padding_packets: 0, max_padding_frac: 0.0, allowed_blocked_microsec: 0, max_blocking_frac: 0.0, states: Vec::new() }
+}
+fn is_canary(a: &MaybenotAction) -> bool {
+    matches!(a, MaybenotAction::Cancel { machine: 0xDEAD, timer: MaybenotTimer::All })
+}
+fn kind_of(a: &MaybenotAction) -> u8 {
+    match a {
+        MaybenotAction::Cancel { .. } => 1,
+        MaybenotAction::SendPadding { .. } => 2,
+        MaybenotAction::BlockOutgoing { .. } => 3,
+        MaybenotAction::UpdateTimer { .. } => 4,
+    }
+}
+
+fn on_events_body<const M: usize>() {
+    set_mode(MODE_ANY_ACTION);
+    // the OS-seeded generator is never drawn from (the machine step is stubbed)
+    let rng: Rng = unsafe { core::mem::zeroed() };
+    let machines: Vec<Machine> = (0..M).map(|_| noop_machine()).collect();
+    let framework = maybenot::verif::new_unchecked(machines, fake_now(), rng);
+    let mut mf = MaybenotFramework { framework, events_buf: Vec::with_capacity(M) };
+    // one global event: every machine takes one step and may return any action
+    let ev = [MaybenotEvent { event_type: MaybenotEventType::TunnelRecv, machine: kani::any() }];
+    let canary = MaybenotAction::Cancel { machine: 0xDEAD, timer: MaybenotTimer::All };
+    let mut out: [MaybeUninit<MaybenotAction>; 4] = [MaybeUninit::new(canary), MaybeUninit::new(canary), MaybeUninit::new(canary), MaybeUninit::new(canary)];
+    let mut n: usize = 77;
+    assert!(unsafe { maybenot_num_machines(&mut mf) } == M, "C20: maybenot_num_machines is the number of machines");
+    let r = unsafe { maybenot_on_events(&mut mf, ev.as_ptr(), 1, out.as_mut_ptr().add(1), &mut n) };
+    assert!(matches!(r, MaybenotResult::Ok), "C20: feeding events to a valid instance succeeds");
+    assert!(aa_calls() == M, "C20: every machine took exactly one step for the event");
+    assert!(n <= M, "C20: the count written never exceeds maybenot_num_machines");
+    let outs: [MaybenotAction; 4] = [unsafe { out[0].assume_init() }, unsafe { out[1].assume_init() }, unsafe { out[2].assume_init() }, unsafe { out[3].assume_init() }];
+    assert!(is_canary(&outs[0]) && is_canary(&outs[M + 1]), "C20: nothing is written outside the num_machines output slots");
+    // the actions, in machine order and field for field, are those the framework returned
+    let mut k = 0;
+    let mut mi = 0;
+    while mi < M {
+        let a = aa_last(mi);
+        if a.kind != 0 {
+            assert!(k < n, "C20: the count written equals the number of actions the framework returned");
+            let c = &outs[1 + k];
+            let to: Duration = aa_timeout();
+            let du: Duration = aa_duration();
+            let ok = match c {
+                MaybenotAction::Cancel { machine, timer } => a.kind == 1 && *machine == mi && *timer as u32 == a.timer as u32,
+                MaybenotAction::SendPadding { machine, timeout, replace, bypass } => {
+                    a.kind == 2 && *machine == mi && *replace == a.replace && *bypass == a.bypass
+                        && (M > 1 || (timeout.secs == to.as_secs() && timeout.nanos == to.subsec_nanos()))
+                }
+                MaybenotAction::BlockOutgoing { machine, timeout, replace, bypass, duration } => {
+                    a.kind == 3 && *machine == mi && *replace == a.replace && *bypass == a.bypass
+                        && (M > 1 || (timeout.secs == to.as_secs() && timeout.nanos == to.subsec_nanos()
+                            && duration.secs == du.as_secs() && duration.nanos == du.subsec_nanos()))
+                }
+                MaybenotAction::UpdateTimer { machine, duration, replace } => {
+                    a.kind == 4 && *machine == mi && *replace == a.replace
+                        && (M > 1 || (duration.secs == du.as_secs() && duration.nanos == du.subsec_nanos()))
+                }
+            };
+            assert!(ok, "C20: the actions written are, in order and field for field, those the framework returns");
+            k += 1;
+        }
+        mi += 1;
+    }
+    assert!(k == n, "C20: the count written equals the number of actions the framework returned");
+    kani::cover!(n == M && M > 0, "every machine returned an action");
+    kani::cover!(n == 0, "no action returned");
+    core::mem::forget(mf);
+}
+
+#[kani::proof]
+#[kani::unwind(5)]
+#[kani::stub(std::time::Instant::now, fake_now)]
+#[kani::stub(maybenot::framework::Framework::transition, maybenot::verif::transition_any_action)]
+fn f_on_events_m1() {
+    on_events_body::<1>();
+}
+#[kani::proof]
+#[kani::unwind(5)]
+#[kani::stub(std::time::Instant::now, fake_now)]
+#[kani::stub(maybenot::framework::Framework::transition, maybenot::verif::transition_any_action)]
+fn f_on_events_m2() {
+    on_events_body::<2>();
+}
